@@ -105,6 +105,9 @@ class Model(object):
     def glob(self, **f):
         self.globals.update(f)
 
+    def canon(self):
+        return (self.added, tuple(self.dests), len(self.buffer), tuple(sorted(self.globals.items())))
+
 
 class Real(object):
     """The real global Destinations driven through the public API."""
@@ -239,7 +242,9 @@ def compare(real, model, hist, rets):
 
 def bfs(depth, max_bursts):
     real, model = build([])
-    seen = {real.canon(): []}
+    # states are merged only if the real object AND the model agree that they are the same state
+    # (merging on the real state alone lets an implementation that wrongly merges states hide)
+    seen = {(real.canon(), model.canon()): []}
     frontier = collections.deque([[]])
     transitions = 0
     viol = []
@@ -263,7 +268,7 @@ def bfs(depth, max_bursts):
                 if len(viol) > 5:
                     return len(seen), transitions, maxd, viol
                 continue
-            k = real.canon()
+            k = (real.canon(), model.canon())
             if k not in seen:
                 seen[k] = h2
                 frontier.append(h2)
